@@ -7,6 +7,7 @@ Driver for C17.
 * `{"op":"c17.split","adapter":a,"limit":n,"hist":"www…c","base":name,"suffixLen":k}`
 * `{"op":"c17.rotname","name":n,"stamp":s,"seq":k}`
 * `{"op":"c17.tmpl","fs":[[name,[r…]]…],"writes":[[path,stamp,r]…]}`
+* `{"op":"c17.tmplc","fs":…,"ops":[[path,stamp,r] | []…]}` (`[]` = `close()`): files + which calls returned
 * `{"op":"c17.frames","parts":[[[d,r]…]…]}`
 -/
 open Lean
@@ -104,6 +105,28 @@ def handleC17 : Handler := fun op j =>
         pure (Json.mkObj [("files", Json.arr (s.fs.map (fun f => Json.arr #[Json.str (String.ofList f.name),
           (match f.origin with | some o => Json.str (String.ofList o) | none => Json.null),
           Json.arr (f.content.map (fun (r : Nat) => Json.num r)).toArray])).toArray)])
+  | "c17.tmplc" => some do
+      let fsj ← getArr j "fs"
+      let fs ← fsj.toList.mapM (fun f => do
+        let a ← f.getArr?
+        let n ← (a[0]?.getD Json.null).getStr?
+        let c ← natArr (a[1]?.getD Json.null)
+        pure ({ name := n.toList, origin := none, content := c } : File Nat))
+      let opsj ← getArr j "ops"
+      let ops ← opsj.toList.mapM (fun w => do
+        let a ← w.getArr?
+        if a.size == 0 then pure (TOp.close : TOp Nat) else do
+          let p ← (a[0]?.getD Json.null).getStr?
+          let st ← (a[1]?.getD Json.null).getStr?
+          let r ← (a[2]?.getD Json.null).getNat?
+          pure (TOp.write p.toList st.toList r))
+      match tmplRunC ({ t := { currentPath := none, fs := fs }, closed := false } : TmplC Nat) ops with
+      | none => pure (Json.mkObj [("error", Json.str "no-free-name")])
+      | some (s, oks) =>
+        pure (Json.mkObj [("files", Json.arr (s.t.fs.map (fun f => Json.arr #[Json.str (String.ofList f.name),
+          (match f.origin with | some o => Json.str (String.ofList o) | none => Json.null),
+          Json.arr (f.content.map (fun (r : Nat) => Json.num r)).toArray])).toArray),
+          ("returned", Json.arr (oks.map Json.bool).toArray)])
   | "c17.frames" => some do
       let pj ← getArr j "parts"
       let parts ← pj.toList.mapM (fun p => do
